@@ -14,7 +14,7 @@ ASAN  := $(COMMON) -O1 -fsanitize=address -fno-omit-frame-pointer -DSIM_BUILD_NA
 TLS   := $(COMMON) -O1 -DRLBOX_EMBEDDER_PROVIDES_TLS_STATIC_VARIABLES -DSIM_BUILD_NAME='"tls"'
 LIBS := -lpthread -ldl
 
-TARGETS := apptoken mem mem.p64 mem.pvoid callback callback.tls invoke toctou toctou.asan bulk bulk.asan bulk.nogrant transition.hooks transition.timing transition.both threads threads.tsan threads.tls
+TARGETS := apptoken mem mem.p64 mem.pvoid callback callback.tls invoke toctou toctou.asan bulk bulk.asan bulk.nogrant transition.hooks transition.inonly transition.outonly transition.timing transition.both threads threads.tsan threads.tls
 
 all: $(addprefix $(B)/,$(TARGETS))
 
@@ -47,6 +47,10 @@ $(B)/bulk.asan: worlds/bulk.cpp $(HDRS) $(SIMH) | $(B)
 
 $(B)/transition.hooks: worlds/transition.cpp $(B)/guestlib.o $(HDRS) $(SIMH) | $(B)
 	$(CXX) $(PLAIN) -DTR_HOOKS -DSIM_BUILD_NAME='"hooks"' $< $(B)/guestlib.o -o $@ $(LIBS)
+$(B)/transition.inonly: worlds/transition.cpp $(B)/guestlib.o $(HDRS) $(SIMH) | $(B)
+	$(CXX) $(PLAIN) -DTR_HOOKS_IN_ONLY -DSIM_BUILD_NAME='"inonly"' $< $(B)/guestlib.o -o $@ $(LIBS)
+$(B)/transition.outonly: worlds/transition.cpp $(B)/guestlib.o $(HDRS) $(SIMH) | $(B)
+	$(CXX) $(PLAIN) -DTR_HOOKS_OUT_ONLY -DSIM_BUILD_NAME='"outonly"' $< $(B)/guestlib.o -o $@ $(LIBS)
 $(B)/transition.timing: worlds/transition.cpp $(B)/guestlib.o $(HDRS) $(SIMH) | $(B)
 	$(CXX) $(PLAIN) -DTR_TIMING -DSIM_BUILD_NAME='"timing"' $< $(B)/guestlib.o -o $@ $(LIBS)
 $(B)/transition.both: worlds/transition.cpp $(B)/guestlib.o $(HDRS) $(SIMH) | $(B)
